@@ -224,7 +224,11 @@ def localadd(case, res):
                    ("uds", None, True), ("ws", ("4", "127.0.0.1", 5003), True), ("ws", ("6", "::1", 5004), True),
                    ("raw", ("4", "10.0.0.7", 5005), False), ("raw", ("6", "2001:db8::1", 5006), False), ("raw", ("4", "127.0.0.2", 5007), False),
                    ("raw", ("6", "::ffff:10.0.0.1", 5008), False), ("ws", ("4", "192.168.1.1", 5009), False), ("raw", ("6", "::2", 5010), False),
-                   ("raw", ("4", "128.0.0.1", 5011), False), ("ws", ("6", "fe80::1", 5012), False)]
+                   ("raw", ("4", "128.0.0.1", 5011), False), ("ws", ("6", "fe80::1", 5012), False),
+                   # addresses that share a part of their bytes with a loopback address
+                   ("raw", ("6", "fd00::7f00:1", 5013), False), ("ws", ("6", "2001:db8::7f00:1", 5014), False), ("raw", ("6", "::fffe:7f00:1", 5015), False),
+                   ("raw", ("6", "1::1", 5016), False), ("raw", ("6", "::1:0:0:1", 5017), False), ("raw", ("6", "::ffff:7f00:2", 5018), False),
+                   ("raw", ("6", "::ffff:0:7f00:1", 5019), False), ("raw", ("4", "1.0.0.127", 5020), False), ("ws", ("6", "::ffff:127.0.0.1", 5021), True)]
         rng.shuffle(origins)
         for i, (t, addr, local) in enumerate(origins):
             c = S.connect("o%d" % i, t, addr)
